@@ -7,11 +7,13 @@ import (
 	"crypto/tls"
 	"fmt"
 	"net/http/httptest"
+	"os"
 	"strings"
 
 	"github.com/jdillenkofer/pithos/internal/http/server"
 	"github.com/jdillenkofer/pithos/internal/http/server/authorization"
 	luaauth "github.com/jdillenkofer/pithos/internal/http/server/authorization/lua"
+	"github.com/jdillenkofer/pithos/internal/settings"
 	"github.com/jdillenkofer/pithos/internal/storage"
 	"github.com/jdillenkofer/pithos/internal/verifx"
 )
@@ -78,9 +80,63 @@ type c32Req struct {
 }
 
 type c32Case struct {
-	trust   bool
-	entries []string
-	reqs    []c32Req
+	trust    bool
+	entries  []string
+	reqs     []c32Req
+	settings *c32Settings // non-nil: trust/entries come out of settings.LoadSettings
+}
+
+// c32Settings: what the operator wrote at the two layers (nil = flag not given / variable unset).
+type c32Settings struct {
+	cliTrust *bool
+	cliList  *string
+	envTrust *string
+	envList  *string
+}
+
+const (
+	c32EnvTrust = "PITHOS_TRUST_FORWARDED_HEADERS"
+	c32EnvList  = "PITHOS_TRUSTED_PROXY_CIDRS"
+)
+
+func c32_optBool(b *bool) string {
+	if b == nil {
+		return "nil"
+	}
+	return fmt.Sprintf("%d", c32_b2i(*b))
+}
+
+func c32_optRaw(s *string) string {
+	if s == nil {
+		return "nil"
+	}
+	return "=" + verifx.HexS(*s)
+}
+
+func c32_loadSettings(st *c32Settings) (bool, []string, error) {
+	setOrUnset := func(key string, v *string) {
+		if v == nil {
+			os.Unsetenv(key)
+		} else {
+			os.Setenv(key, *v)
+		}
+	}
+	setOrUnset(c32EnvTrust, st.envTrust)
+	setOrUnset(c32EnvList, st.envList)
+	defer os.Unsetenv(c32EnvTrust)
+	defer os.Unsetenv(c32EnvList)
+	var args []string
+	if st.cliTrust != nil {
+		args = append(args, fmt.Sprintf("-trustForwardedHeaders=%t", *st.cliTrust))
+	}
+	if st.cliList != nil {
+		args = append(args, "-trustedProxyCIDRs="+*st.cliList)
+	}
+	s, err := settings.LoadSettings(args)
+	if err != nil {
+		return false, nil, err
+	}
+	return s.TrustForwardedHeaders(), s.TrustedProxyCIDRs(), nil
 }
 
 func init() { register("c32", runC32) }
@@ -114,6 +170,19 @@ func runC32(args []string) {
 		}
 		out.Case(k, seed)
 		k++
+		if c.settings != nil {
+			// the configuration glue: real settings.LoadSettings under a controlled environment,
+			// then the two accessors exactly as cmd/pithos.go hands them to the authorizer
+			out.Line("set clit %s clil %s envt %s envl %s", c32_optBool(c.settings.cliTrust), c32_optRaw(c.settings.cliList),
+				c32_optRaw(c.settings.envTrust), c32_optRaw(c.settings.envList))
+			trust, entries, err := c32_loadSettings(c.settings)
+			if err != nil {
+				out.Line("error loadsettings %s", verifx.HexS(err.Error()))
+				out.End()
+				return
+			}
+			c.trust, c.entries = trust, entries
+		}
 		var cl strings.Builder
 		fmt.Fprintf(&cl, "cfg %d", c32_b2i(c.trust))
 		for _, e := range c.entries {
@@ -205,11 +274,29 @@ func runC32(args []string) {
 	emit(c32Case{trust: true, entries: []string{"2001:db8::/32", "10.0.0.0/08"}, reqs: std}, 11)
 	emit(c32Case{trust: true, entries: []string{"::ffff:10.0.0.0/90", "010.0.0.0/8", "10.0.0.0/+8"}, reqs: std}, 12)
 
+	// ---- directed settings cases (configuration glue) ----
+	sp := func(s string) *string { return &s }
+	bp := func(b bool) *bool { return &b }
+	// the reported lead first: the list is given on the command line only
+	emit(c32Case{settings: &c32Settings{cliTrust: bp(true), cliList: sp("10.0.0.0/8")}, reqs: std}, 13)
+	emit(c32Case{settings: &c32Settings{envTrust: sp("true"), envList: sp(",")}, reqs: std}, 14)
+	emit(c32Case{settings: &c32Settings{envTrust: sp("true"), envList: sp("10.0.0.0/8")}, reqs: std}, 15)
+	emit(c32Case{settings: &c32Settings{cliTrust: bp(true), cliList: sp("10.0.0.0/8"), envList: sp("192.0.2.0/24")}, reqs: std}, 16)
+	emit(c32Case{settings: &c32Settings{cliTrust: bp(true), cliList: sp("10.0.0.0/8"), envList: sp(" , ")}, reqs: std}, 17)
+	emit(c32Case{settings: &c32Settings{cliTrust: bp(true), cliList: sp("")}, reqs: std}, 18)
+	emit(c32Case{settings: &c32Settings{cliTrust: bp(false), envTrust: sp("T"), cliList: sp("not-a-cidr, 10.0.0.0/8")}, reqs: std}, 19)
+	emit(c32Case{settings: &c32Settings{cliTrust: bp(true), envTrust: sp("no"), envList: sp("10.0.0.0/8")}, reqs: std}, 20)
+	emit(c32Case{settings: &c32Settings{cliList: sp("10.0.0.0/8")}, reqs: std}, 21)
+
 	// ---- generated cases ----
 	for c := 0; c < f.Cases; c++ {
 		seed := verifx.CaseSeed(f.Seed, k)
 		r := verifx.NewRng(seed)
-		emit(genC32Case(r), seed)
+		if c%4 == 3 {
+			emit(genC32SettingsCase(r), seed)
+		} else {
+			emit(genC32Case(r), seed)
+		}
 	}
 	out.Flush()
 }
